@@ -44,9 +44,12 @@ class NSGAII(GeneticAlgorithm):
         self.options.declare(name='prob_mutation', default=1.0 / (len(problem.parameters)), lower=0,
                              desc='prob_mutation')
 
+        self._default_generator = None
+
     def run(self):
-        if self.generator is None:
-            self.generator = RandomGenerator(self.problem.parameters)
+        # a generator assigned by the user is kept, the default one follows the current population size
+        if self.generator is None or self.generator is self._default_generator:
+            self.generator = self._default_generator = RandomGenerator(self.problem.parameters)
             self.generator.init(self.options['max_population_size'])
         self.crossover = SimulatedBinaryCrossover(self.problem.parameters, self.options['prob_cross'])
         self.mutator = PmMutator(self.problem.parameters, self.options['prob_mutation'])
